@@ -2,6 +2,7 @@
 import ast
 from ..core import Result
 from ..pm import AnalysisError, unparse
+from ..match import Code
 from ..paths import paths, annotate, callee_names, call_attr
 from ..rat import (Ev, Rat, Sym, Poly, fn_eval, rat_eq, Inconclusive, ONE,
                    ZERO, const_of)
@@ -474,7 +475,7 @@ def fno_epd(ctx):
                                  f"{fno} do not satisfy FNO * EPD = f2",
                                  construct=f'arm {ap}'))
     # object NA arm shape: 2 (EPL - obj_z) tan(arcsin(NA / n0))
-    src = unparse(fe.node, 4000)
+    src = Code(P, fe)
     if 'np.arcsin(ap_value / n0)' in src and 'np.tan(u0)' in src and \
             'self.EPL() - obj_z' in src:
         res.ok('objectNA arm: 2 (EPL - z_obj) tan(asin(NA / n0))')
@@ -572,7 +573,7 @@ def inverted4(ctx):
                  'a deep copy; _trace_generic(reverse=True) uses it')
     f = P.func('SurfaceGroup.inverted')
     res.saw(f)
-    src = unparse(f.node, 5000)
+    src = Code(P, f)
     dc = [n for n in ast.walk(f.node) if isinstance(n, ast.Call) and
           unparse(n.func) in ('deepcopy', 'copy.deepcopy')]
     ok1 = dc and unparse(dc[0].args[0]) == 'self.surfaces[::-1]'
